@@ -6,7 +6,8 @@ EXPLANATION = (
     "Static analysis of rustc MIR of media::{spsc,track,pipeline}. The SPSC ring is memory-safe only with one "
     "producer and one consumer at a time; that is an ownership/lock discipline visible in the code shape. "
     "R20.1: every SpscRing::push call outside spsc.rs is reachable only while a mutex guard is held, and all push "
-    "sites of one handle type use the same lock field, which is an Arc shared by Clone. R20.2: same for "
+    "sites of one ring (all handle types built around the same Arc<SpscRing>) hold the same lock instance - an Arc "
+    "shared by Clone and handed to every handle type by the constructor. R20.2: same for "
     "SpscRing::pop. R20.3: the four atomic orderings of push/pop (head Acquire-load / tail Release-store after the "
     "slot write; tail Acquire-load / head Release-store after the slot read). R20.4: unsafe impl Send/Sync keep "
     "T: Send; Clone increments and Drop decrements the sender count, closing on the last; end-of-stream is "
@@ -35,31 +36,73 @@ def _sites(ctx, callee):
     return out
 
 
+def _ring_groups(ctx):
+    """handle types that share one ring: two struct literals built in the same function whose ring field
+    operands are the same Arc. -> (type -> group id, {(typeA, typeB, field): shared?} for lock fields)"""
+    ring_types = {}
+    for name, adt in ctx.facts.adts.items():
+        for v in adt["variants"]:
+            for f in v["fields"]:
+                if "SpscRing<" in f["ty"] and not name.startswith("media::spsc::"):
+                    ring_types[name] = f["n"]
+    parent = {t: t for t in ring_types}
+
+    def find(x):
+        while parent[x] != x:
+            x = parent[x]
+        return x
+    same_field = {}
+    for body in ctx.facts.all_bodies():
+        if "::tests::" in body.name:
+            continue
+        aggs = [(bi, si, st) for bi, si, st in core.aggregates(body, lambda a: a in ring_types)]
+        if len(aggs) < 2:
+            continue
+        recs = []
+        for bi, si, st in aggs:
+            rv = st["rv"]
+            ops = {fn: body.term_operand(o) for fn, o in zip(rv["fields"], rv["ops"])}
+            recs.append((rv["adt"], ops))
+        for i in range(len(recs)):
+            for j in range(i + 1, len(recs)):
+                (ta, oa), (tb, ob) = recs[i], recs[j]
+                if ta == tb:
+                    continue
+                if oa.get(ring_types[ta]) == ob.get(ring_types[tb]) and oa.get(ring_types[ta]) is not None:
+                    parent[find(ta)] = find(tb)
+                    for f in set(oa) & set(ob):
+                        same_field[(ta, tb, f)] = same_field[(tb, ta, f)] = (oa[f] == ob[f])
+    return {t: find(t) for t in ring_types}, same_field
+
+
 def _exclusive(ctx, r, what, callee, floor, needs_shared_arc):
     sites = _sites(ctx, callee)
     r.need("%s call sites outside spsc.rs" % what, len(sites), floor)
-    by_type = {}
+    group_of, same_field = _ring_groups(ctx)
+    by_group = {}
     for body, bi, t in sites:
-        by_type.setdefault(_self_type(ctx, body), []).append((body, bi, t))
-    for ty, ss in sorted(by_type.items()):
-        r.scope.append(ty)
+        ty = _self_type(ctx, body)
+        by_group.setdefault(group_of.get(ty, ty), []).append((ty, body, bi, t))
+    for g, ss in sorted(by_group.items()):
+        types = sorted(set(ty for ty, _, _, _ in ss))
+        r.scope += types
         held_sets = []
-        for body, bi, t in ss:
-            held = set(f for f, _ in core.held_locks_at(body, bi))
-            # &mut self receivers are exclusive by the borrow checker
-            held_sets.append(held)
+        for ty, body, bi, t in ss:
+            held_sets.append(set(f for f, _ in core.held_locks_at(body, bi)))
         common = set.intersection(*held_sets) if held_sets else set()
-        # lock must be shared between clones of the handle
         ok_common = set()
         for f in common:
-            if _shared_lock_field(ctx, ty, f):
+            # one lock instance: shared between clones of each handle type, and the same Arc in every handle
+            # type of the ring that has %s sites
+            if all(_shared_lock_field(ctx, ty, f) for ty in types) and \
+                    all(same_field.get((a, b, f), False) for a in types for b in types if a != b):
                 ok_common.add(f)
-        for (body, bi, t), held in zip(ss, held_sets):
+        for (ty, body, bi, t), held in zip(ss, held_sets):
             site = "call:%s" % what
             if ok_common:
-                r.ok({"site": "%s %s" % (body.where(bi), what), "under": sorted(ok_common), "handle": ty})
+                r.ok({"site": "%s %s" % (body.where(bi), what), "under": sorted(ok_common), "handles of the ring": types})
             else:
-                why = "no lock held" if not held else "held %s but no lock common to all %s sites of %s / not shared by Clone" % (sorted(held), what, ty)
+                why = "no lock held" if not held else "held %s but no single lock instance common to all %s sites of the ring shared by %s" % (sorted(held), what, types)
                 r.violate(body.name, site, body.where(bi),
                           "%s on a shared ring without a %s-serialising lock (%s)" % (what, "producer" if what == "push" else "consumer", why))
 
